@@ -368,6 +368,19 @@ func (in *Interp) floatBinop(op token.Token, f32 bool, x, y value) value {
 		}
 		return r
 	}
+	// integer-valued floats: multiplication by a concrete constant only
+	if xi, ok := x.(intFloat); ok {
+		if op == token.MUL && yc && !f32 {
+			return xi.mul(yf)
+		}
+		panic(unsupported{"arithmetic on an integer-valued symbolic float: " + op.String()})
+	}
+	if yi, ok := y.(intFloat); ok {
+		if op == token.MUL && xc && !f32 {
+			return yi.mul(xf)
+		}
+		panic(unsupported{"arithmetic on an integer-valued symbolic float: " + op.String()})
+	}
 	// ordered atoms: comparisons only
 	xt, yt := floatTerm(x), floatTerm(y)
 	switch op {
@@ -479,6 +492,11 @@ func (in *Interp) eqTerm(t types.Type, x, y value) *Term {
 		case *Term:
 			return mkEq(floatTerm(x), y)
 		}
+	case intFloat:
+		if y, ok := y.(intFloat); ok && x.chain == y.chain {
+			return mkEq(x.t, y.t)
+		}
+		panic(unsupported{"comparison of integer-valued symbolic floats with different histories"})
 	case complex128:
 		return mkBool(x == y.(complex128))
 	case *Term:
@@ -740,6 +758,9 @@ func (in *Interp) conv(tdst, tsrc types.Type, x value) value {
 				}
 				return f
 			}
+			if t, ok := x.(*Term); ok && !isFloat32(tdst) {
+				return mkIntFloat(t, ws, ssigned)
+			}
 			panic(unsupported{"symbolic int to float conversion"})
 		}
 		if isString(tdst) {
@@ -786,6 +807,10 @@ func (in *Interp) conv(tdst, tsrc types.Type, x value) value {
 				return x
 			case *Term:
 				return x
+			case intFloat:
+				if !isFloat32(tdst) {
+					return x
+				}
 			}
 		}
 		if wd, dsigned, ok := intInfo(tdst); ok {
